@@ -679,6 +679,10 @@ func c10H5(r *Run, rep *core.Report) {
 				}
 			}
 			n++
+			if nilFuncArgGuard(f, in.Block()) {
+				rep.Pass("C10.H5", fn(f)+" argument validation", r.P.InstrPos(in), "panic taken only for a nil function argument (a call outside every property's quantifier)")
+				return
+			}
 			dead := true
 			for _, sp := range specs {
 				if sp.Reachable(f)[in.Block()] {
@@ -736,4 +740,65 @@ func globalEverSet(r *Run, g *ssa.Global) bool {
 		})
 	}
 	return set
+}
+
+// nilFuncArgGuard: the block is entered only through the 'is nil' edge of a test of a function-typed parameter.
+func nilFuncArgGuard(f *ssa.Function, b *ssa.BasicBlock) bool {
+	// the panic block itself or one of its dominators is entered only through the 'is nil' edge
+	for d := b; d != nil; d = d.Idom() {
+		if nilFuncArgEdge(f, d) {
+			return true
+		}
+	}
+	return false
+}
+
+func nilFuncArgEdge(f *ssa.Function, b *ssa.BasicBlock) bool {
+	if len(b.Preds) != 1 {
+		return false
+	}
+	p := b.Preds[0]
+	iff, ok := p.Instrs[len(p.Instrs)-1].(*ssa.If)
+	if !ok {
+		return false
+	}
+	cond := iff.Cond
+	neg := false
+	for {
+		if u, isU := cond.(*ssa.UnOp); isU && u.Op == token.NOT {
+			neg = !neg
+			cond = u.X
+			continue
+		}
+		break
+	}
+	bo, ok := cond.(*ssa.BinOp)
+	if !ok || (bo.Op != token.EQL && bo.Op != token.NEQ) {
+		return false
+	}
+	for _, pair := range [][2]ssa.Value{{bo.X, bo.Y}, {bo.Y, bo.X}} {
+		v := pair[0]
+		// a parameter captured by a closure lives in a cell: the load of that cell is the parameter
+		if ld, isLd := v.(*ssa.UnOp); isLd && ld.Op == token.MUL {
+			if cell, isCell := ld.X.(*ssa.Alloc); isCell {
+				if st := uniqueStore(cell); st != nil {
+					v = st.Val
+				}
+			}
+		}
+		prm, isP := v.(*ssa.Parameter)
+		if !isP || !core.IsNilConst(pair[1]) {
+			continue
+		}
+		if _, isFn := prm.Type().Underlying().(*types.Signature); !isFn {
+			continue
+		}
+		nilOnTrue := (bo.Op == token.EQL) != neg
+		edge := 1
+		if nilOnTrue {
+			edge = 0
+		}
+		return p.Succs[edge] == b
+	}
+	return false
 }
